@@ -403,6 +403,61 @@ def run_r4(ctx, rule):
     rule.check(rlim is not None and wmax is not None and rlim >= wmax, "varint/reader-accepts-writer", "the reader accepts at least as many 7-bit groups (%s) as the writer can emit (%s)" % (rlim, wmax), rf.loc())
 
 
+def run_r4b(ctx, rule):
+    """the continuation-bit protocol of the 7-bit groups: writer and reader use the same constants, and the
+    writer's last group provably has the continuation bit clear"""
+    facts = ctx.facts
+    wf = [f for i, f in facts.fns.items() if norm(i) == "flussab_aiger::binary::Writer::write_binary_uint"]
+    rf = fnn(facts, "flussab_aiger::token::binary_uint")
+    if not wf:
+        rule.bad("varint/writer-missing", "anchor missing: write_binary_uint", kind="anchor-missing")
+        return
+    wf = wf[0]
+    sy = sym(wf)
+    arrays = set(i for i, l in enumerate(wf.locals) if l.get("array") == "u8" and l.get("refs", 0) == 0)
+    n_cont = n_last = 0
+    for bi, b in enumerate(wf.blocks):
+        for s in b["stmts"]:
+            if s["k"] != "assign" or s["lhs"]["l"] not in arrays or not any(isinstance(q, dict) and ("index" in q or "cidx" in q) for q in s["lhs"]["p"]):
+                continue
+            e = sy.rvalue(s["rv"])
+            if e[0] == "bin" and e[1] == "BitOr" and ("c", 128) in (e[2], e[3]):
+                n_cont += 1
+                continue
+            if e[0] == "bin" and e[1] == "BitAnd" and ("c", 127) in (e[2], e[3]):
+                n_last += 1
+                rule.ok("write_binary_uint: the last group is masked with 0x7f", wf.loc(bi))
+                continue
+            v = e[2] if e[0] == "cast" else e
+            g = guards.holds(wf, bi, lambda fa: fa[0] == "cmp" and (fa[1] == "Lt" and fa[3] == ("c", 128) and strip_bb(fa[2]) == strip_bb(v) or fa[1] == "Le" and fa[3] == ("c", 127) and strip_bb(fa[2]) == strip_bb(v) or fa[1] == "Gt" and fa[2] == ("c", 128) and strip_bb(fa[3]) == strip_bb(v) or fa[1] == "Ge" and fa[2] == ("c", 127) and strip_bb(fa[3]) == strip_bb(v)))
+            n_last += 1
+            rule.check(bool(g), "varint/last-group-clear", "write_binary_uint: a group written without the continuation bit holds a value known to be < 0x80 (%s)" % (guards.show_fact(wf, g[1]) if g else "no dominating fact value < 0x80 for %s" % sy.show(v)), wf.loc(bi))
+    rule.check(n_cont >= 1 and n_last >= 1, "varint/group-forms", "write_binary_uint emits continuation groups (| 0x80) and a final group with the bit clear (%d / %d stores)" % (n_cont, n_last), wf.loc())
+    # shift by 7 on both sides, reader tests bit 0x80 and keeps 0x7f
+    def consts(f, op):
+        out = set()
+        sf = sym(f)
+        for b in f.blocks:
+            for s in b["stmts"]:
+                if s["k"] == "assign" and s["rv"]["k"] == "bin" and s["rv"]["op"].replace("Unchecked", "") == op:
+                    e = sf.rvalue(s["rv"])
+                    for x in (e[2], e[3]):
+                        v = ceval(x)
+                        if v is not None:
+                            out.add(v)
+        # operator traits on references (`&u8 & 0x7f`) are calls
+        for bb, t in f.calls():
+            cn = norm(util.cname(t))
+            if cn.rsplit("::", 1)[-1] == {"BitAnd": "bitand", "Shl": "shl", "Shr": "shr"}.get(op, "?"):
+                for a in t["args"]:
+                    v = ceval(sf.operand(a))
+                    if v is not None:
+                        out.add(v)
+        return out
+    rule.check(7 in consts(wf, "Shr") and 7 in consts(rf, "Shl"), "varint/shift", "writer shifts right by 7 per group, reader shifts left by 7 per group", wf.loc())
+    rule.check(128 in consts(rf, "BitAnd") and 127 in consts(rf, "BitAnd"), "varint/reader-masks", "the reader tests the continuation bit 0x80 and keeps the low 7 bits", rf.loc())
+
+
 # ---- R5 ---------------------------------------------------------------------------------------
 def run_r5(ctx, rule):
     facts = ctx.facts
@@ -550,6 +605,8 @@ def run(ctx):
     run_r3(ctx, r3)
     r4 = ctx.rule("C03-R4", "binary varint: the reader accepts every length the writer can emit", floor=2)
     run_r4(ctx, r4)
+    r4b = ctx.rule("C03-R4b", "binary varint: continuation-bit protocol (writer's last group < 0x80, same shift and masks as the reader)", floor=4)
+    run_r4b(ctx, r4b)
     r5 = ctx.rule("C03-R5", "AIGER header: fields parsed in the written order; optional tail agrees (5 required fields)", floor=6)
     run_r5(ctx, r5)
     r6 = ctx.rule("C03-R6", "latch reset forms agree", floor=4)
